@@ -69,8 +69,19 @@ class AttrDef:
 
 
 def init_attr_defs(func):
-    """All self.X assignments of a constructor-like method, with their enclosing-if context."""
+    """All self.X assignments of a constructor-like method, with their enclosing-if context.  A value that is a local temporary
+    is replaced by the expression that defines the temporary (`cms = np.zeros(...); self.cms = cms`)."""
     out = []
+    from .model import resolve_temps
+
+    def resolved(v):
+        if isinstance(v, ast.Name):
+            r = resolve_temps(func.node, v, allow_subscript=True, pure_only=False, in_loops=False, loose=True)
+            # loose resolution names the defining expression; accept it only when that expression creates a fresh value
+            # (a call) or is a plain parameter / attribute
+            if isinstance(r, (ast.Call, ast.Attribute, ast.Name, ast.Subscript, ast.Constant, ast.BinOp)):
+                return r
+        return v
 
     def visit(stmts, branch):
         for s in stmts:
@@ -78,11 +89,11 @@ def init_attr_defs(func):
                 for t in s.targets:
                     a = self_attr(t)
                     if a:
-                        out.append(AttrDef(a, s, s.value, branch))
+                        out.append(AttrDef(a, s, resolved(s.value), branch))
             elif isinstance(s, ast.AnnAssign) and s.value is not None:
                 a = self_attr(s.target)
                 if a:
-                    out.append(AttrDef(a, s, s.value, branch))
+                    out.append(AttrDef(a, s, resolved(s.value), branch))
             elif isinstance(s, ast.If):
                 t = unparse(s.test)
                 visit(s.body, branch + ((t, True),))
